@@ -5,16 +5,33 @@ import sys, os, subprocess, tempfile, shutil, glob
 ROOT = os.path.dirname(os.path.dirname(os.path.abspath(__file__)))
 sys.path.insert(0, ROOT)
 from sa import check
-seeds = sys.argv[1:] or sorted(os.path.basename(os.path.dirname(p)) for p in glob.glob(os.path.join(ROOT, "seeded", "*", "patch.diff")))
+
+SEED_BASE = "1042e09"   # /repo commit the sub-agents' worktrees were created from (seeds are diffs against it)
+
+def make_repo(repo, patch):
+    """scratch copy of /repo's working tree with `patch` applied; if the patch no longer applies to the current tree (a later fix: commit touched
+    the same lines) the copy is taken from the commit the seed was written against. Returns None or an error string."""
+    import subprocess, shutil
+    shutil.rmtree(repo, ignore_errors=True)
+    subprocess.check_call(["rsync", "-a", "--exclude", "target", "--exclude", ".git", "/repo/", repo + "/"])
+    if not patch: return None
+    p = subprocess.run(["patch", "-p1", "-s", "--dry-run", "-i", patch], cwd=repo, capture_output=True, text=True)
+    if p.returncode != 0:
+        shutil.rmtree(repo, ignore_errors=True); os.makedirs(repo)
+        subprocess.check_call(f"git -C /repo archive {SEED_BASE} | tar -x -C {repo}", shell=True)
+        print(f"note: {patch} does not apply to the current tree; using base commit {SEED_BASE}")
+    p = subprocess.run(["patch", "-p1", "-s", "-i", patch], cwd=repo, capture_output=True, text=True)
+    return None if p.returncode == 0 else "patch does not apply: " + (p.stdout + p.stderr)[-300:]
+
+seeds = sys.argv[1:] or sorted(os.path.basename(os.path.dirname(p)) for p in glob.glob(os.path.join(ROOT, "seeded", "*", "patch.diff")) + glob.glob(os.path.join(ROOT, "selftest", "*", "patch.diff")))
 d = tempfile.mkdtemp(prefix="seedfacts-")
 try:
     repo = os.path.join(d, "repo")
     for s in seeds:
         out = os.path.join(check.CACHE, "seedfacts", s)
-        shutil.rmtree(out, ignore_errors=True); shutil.rmtree(repo, ignore_errors=True)
-        subprocess.check_call(["rsync", "-a", "--exclude", "target", "--exclude", ".git", "/repo/", repo + "/"])
-        if s != "base":
-            subprocess.check_call(["patch", "-p1", "-s", "-i", os.path.join(ROOT, "seeded", s, "patch.diff")], cwd=repo)
+        shutil.rmtree(out, ignore_errors=True)
+        err = make_repo(repo, None if s == "base" else next(p_ for p_ in (os.path.join(ROOT, "seeded", s, "patch.diff"), os.path.join(ROOT, "selftest", s, "patch.diff")) if os.path.exists(p_)))
+        if err: print(s, err); continue
         with check.locked("extract"):
             ok, err = check.extract(repo, out, os.path.join(check.CACHE, "target-seed"))
         print(s, "ok" if ok else "FAILED " + err[-500:])
